@@ -287,7 +287,9 @@ def case_solve(ctx, p):
         # along the axis omega is ill-determined, so the difference is weighted with that part (and never tighter than 1e-6)
         axis = P @ np.array([0.0, 0.0, 1.0])
         perp = float(np.linalg.norm(d - float(d @ axis) * axis))
-        wtol = 1e-6 / max(perp, 1e-3) + 1e-6
+        # each solver is allowed 1e-6 sin(theta) on the position of the rotated vector (its own post-condition), so two of them
+        # can be asked to agree to twice that and no better
+        wtol = 2e-6 / max(perp, 1e-3) + 1e-6
         if (m, "wedge") in res:
             a = _as_set(*res[m, "general"])
             b = _as_set(*res[m, "wedge"])
